@@ -2,6 +2,7 @@ package main
 
 import (
 	"fmt"
+	"math"
 	"strings"
 
 	"verif/harness/hx"
@@ -41,6 +42,21 @@ func gen(r *hx.Rand, n int, tier string, prop string, out *hx.Out) {
 				att = 25 + g.Intn(12) // where min << attempt crosses 2^31..2^36 ns
 			}
 			out.P("backoff %d %d %d", mn, mx, att)
+		}
+		// maxima that float64 rounds up (MaxInt64 -> 2^63, 2^54-1 -> 2^54) with power-of-two minima whose product
+		// with 2^attempt hits the rounded value exactly (fix d120bcc: max+1 / negative durations), and around them
+		for _, mx := range []int64{math.MaxInt64, math.MaxInt64 - 1023, 1<<54 - 1, 1<<55 - 3, 1 << 62} { // float64(max) >= max: the integer model is exact there (C16_backoff_float_*)
+			for _, sh := range []int{0, 1, 30, 53, 62} {
+				mn := int64(1) << uint(sh)
+				if mn > mx {
+					continue
+				}
+				for _, att := range []int{53 - sh, 54 - sh, 62 - sh, 63 - sh, 64 - sh, 1100} {
+					if att >= 0 {
+						out.P("backoff %d %d %d", mn, mx, att)
+					}
+				}
+			}
 		}
 	}
 	for c := 0; c < n; c++ {
